@@ -86,7 +86,7 @@ def install_hooks(ex, callback_rx=None):
         ex.trace_hooks.append((callback_rx, on_cb))
 
 
-RX_CORPUS_CB = re.compile(r'^corpus::\w+::cb_\w+$')
+RX_CORPUS_CB = re.compile(r'^corpus::\w+::(?:\w+::)*cb_\w+$')
 
 
 # ----------------------------------------------------------------------------- UTF-8
@@ -178,7 +178,10 @@ class CallbackSpec:
         for i, tb in enumerate(tables):
             if tb.cb_fn:
                 self.by_fn.setdefault(tb.cb_fn, []).append(i)
-        self.error_cb = d.error_cb
+        # the error callback may be written positionally (`cb_err`), named (`callback = cb_err`) or as an inline closure
+        # (`|lex| cb_err(lex)`): in every form the corpus function that runs is the last `cb_...` identifier
+        names = re.findall(r'cb_\w+', d.error_cb or '')
+        self.error_cb = names[-1] if names else d.error_cb
         self.has_error_cb = bool(d.error_cb)
 
     @staticmethod
